@@ -222,6 +222,18 @@ func c08Run(w *W) {
 		}
 		w.Probe("link-flap-before-traffic")
 	}
+	if w.Choose(simrt.SProg, 3) == 0 {
+		// the members change their send queue length now that everybody is
+		// connected and idle (it governs connections made from now on, or is
+		// applied to the existing ones - either way nobody is disconnected and
+		// everything sent afterwards still reaches every peer)
+		for _, m := range members {
+			if err := m.s.SetOption(mangos.OptionWriteQLen, []int{128, 256, 200}[w.Choose(simrt.SProg, 3)]); err == nil {
+				w.Probe("send-queue-length-changed-before-traffic")
+			}
+		}
+		w.Settle()
+	}
 	var slowM *c8Member
 	if slow {
 		// the last leaf never reads and never sends
